@@ -31,3 +31,12 @@ func VerifSmallRef(x byte) Ref {
 
 // VerifDigestByte returns byte i of the ref's digest.
 func (r Ref) VerifDigestByte(i int) byte { return r.digest.bytes()[i] }
+
+// VerifSmallRef16 is like VerifSmallRef with a 16-bit family index.
+func VerifSmallRef16(x uint16) Ref {
+	var d sha224Digest
+	d[0] = byte(x >> 8)
+	d[1] = byte(x)
+	d[2] = 0xee
+	return Ref{d}
+}
